@@ -448,7 +448,14 @@ fn own_all(m: &Mis, _op: &Op, _pre: &Model) -> Option<String> {
 
 fn own_c01(m: &Mis, op: &Op, _pre: &Model) -> Option<String> {
     if m.aspect == "limit" {
-        return Some(format!("C01/{}/after={}", m.class, oracle::opname2(op)));
+        let sig = format!("C01/{}/after={}", m.class, oracle::opname2(op));
+        if sig == "C01/over-limit/after=put_or_update" && is_open("D5") {
+            // the listed finding itself (its pinned witness is replayed by the check): do not end the
+            // run on it, what happens *after* the total went over the limit is still to be judged
+            simsync::sim::probe("seq.known_D5_seen_and_passed");
+            return None;
+        }
+        return Some(sig);
     }
     None
 }
@@ -545,9 +552,14 @@ fn own_c08(m: &Mis, op: &Op, pre: &Model) -> Option<String> {
     None
 }
 
-fn own_c09(m: &Mis, _op: &Op, pre: &Model) -> Option<String> {
+fn own_c09(m: &Mis, op: &Op, pre: &Model) -> Option<String> {
     if m.aspect == "sweep-semantic" && (m.class == "swept-not-due" || m.class == "swept-no-ttl") {
         return Some(format!("C09/hidden-before-expiry/seq,by-sweep,{}", m.class));
+    }
+    // the deadline a put / upsert stores is "time of the call + the requested time-to-live"
+    let sets_ttl = matches!(op, Op::Put { ttl: Some(_), .. } | Op::Upsert { ttl: Some(_), .. });
+    if sets_ttl && m.aspect == "store" && m.ctx == "only-deadlines-differ" {
+        return Some("C09/deadline-not-as-requested/seq".to_string());
     }
     if m.aspect != "read" {
         return None;
@@ -929,6 +941,16 @@ fn c11_conc(rng: &mut Rng, name: &'static str) -> Prepared {
     p.stall_roles = vec![RoleName::Worker];
     p.pressure = *rng.pick(&[Pressure::Fits, Pressure::Tight]);
     let mut sc = conc(rng, "C11", name, &p);
+    // some upserts lower the charged weight (they, too, are queued behind the thread's earlier writes)
+    for prog in sc.threads.iter_mut() {
+        for op in prog.iter_mut() {
+            if let Op::Upsert { weight: Some(w), .. } = op {
+                if *w > 1 && rng.chance(1, 2) {
+                    *w = rng.range_i(1, *w);
+                }
+            }
+        }
+    }
     // owner-only put -> delete pairs at the end of some programs
     let n_threads = sc.threads.len();
     for t in 0..n_threads {
